@@ -289,14 +289,32 @@ def check_case(case: dict, reply: dict) -> list:
     falsy_kind = lab.kind in ("int0", "str", "tuple")
     out = []
     view = None
+    expect = None  # (nodes, edges) the next query must report after a successful remove
     for op, rep in zip(case["ops"], reply["res"]):
         if op["op"] == "query":
             op2 = dict(op)
             op2["_falsy"] = [0] if falsy_kind else []
             out.extend(check_query(op2, rep))
             view = View(rep)
-        elif op["op"] in ("init", "add_node", "add_child", "remove"):
+            if expect is not None and not view.dangling:
+                if view.nodes != expect[0] or view.edges != expect[1]:
+                    out.append(("remove: the graph afterwards is not the old graph minus the node and its incident edges", {"nodes": view.nodes, "edges": view.edges, "want_nodes": expect[0], "want_edges": expect[1]}))
+            expect = None
+        elif op["op"] == "remove":
+            x = op["n"]
+            expect = None
+            if view is not None and not view.dangling:
+                if x in view.pos:
+                    if rep is not None:
+                        out.append(("remove of a node raised", {"n": x, "got": rep}))
+                    else:
+                        expect = ([k for k in view.nodes if k != x], [e for e in view.edges if x not in e])
+                elif rep != {"err": "ValueError"}:
+                    out.append(("remove of a node outside the graph does not raise ValueError", {"n": x, "got": rep}))
             view = None
+        elif op["op"] in ("init", "add_node", "add_child"):
+            view = None
+            expect = None
         elif op["op"] == "jobcost" and view is not None and not view.dangling and not view.cyclic and view.nodes:
             # clause: critical-path runtime == maximum path weight (all jobs live, positive runtimes;
             # for completion_time additionally no SLO overrides, i.e. cost == runtime)
